@@ -9,12 +9,13 @@ Quantification: every configuration (`Cfg`: source dir, prefix dir, path mapping
 keep-only glob sets, ignore-not-existing, filter), every file system (`FS`), every result map
 (any keys, any coverage data).
 
-Two clauses of the property are FALSE of the unchanged code and carry a proved negation, a closed
+One clause of the property is FALSE of the current code and carries a proved negation, a closed
 witness (replayed on the real code by harness/c11) and a `…_partial` theorem:
 * normal form — a path-mapping *value* that contains backslashes reaches the report with its
-  backslashes turned into separators after normalisation (finding C11-mapping-backslash);
-* relative to the source directory — an absolute path that only reaches the source directory through
-  a `..` behind a non-existing directory is reported absolute (finding C11-dotdot-not-relativised).
+  backslashes turned into separators after normalisation (finding C11-mapping-backslash).
+"Relative to the source directory" was false before fix 52345c0 (an absolute path reaching the
+source dir through `..` behind a missing directory was reported absolute); it is now proved at full
+strength and its old witness is a corpus case.
 -/
 import GrcovModel.Lemmas.Rewrite
 namespace Grcov.Props.C11
@@ -212,50 +213,27 @@ theorem C11_prefix_removed (cfg : Cfg) (fs : FS) (key pre t abs rel : Bytes)
   obtain ⟨ac, _, _, hn⟩ := (getAbsPath_some_iff _ _ _ _ _).1 (resolveKey_some h)
   simpa [keyPath, hP, removePrefix, hstrip, hS, fixupRelPath] using hn
 
-/-- Full statement: with a clean absolute source dir `S`, a reported file whose absolute path lies
-under `S` is reported relative to `S`. FALSE of the code. -/
-def C11_relative_under_source_dir_stmt : Prop :=
-  ∀ (cfg : Cfg) (fs : FS) (key : Bytes) (sn : List Bytes) (abs rel : Bytes),
-    (∀ n ∈ sn, RealName n) → cfg.sourceDir = some (render ⟨true, sn⟩) →
-    resolveKey cfg fs key = .ok (some (abs, rel)) →
-    startsWith abs (render ⟨true, sn⟩) = true →
-    stripPrefix abs (render ⟨true, sn⟩) = some rel
-
-/-- Witness: source dir `/s`, nothing on disk, key `/x/../s/a.c` ⇒ reported as
-(`/s/a.c`, `/s/a.c`): `fixup_rel_path` tests `starts_with(source_dir)` before `normalize_path`
-resolves the `..`. -/
-theorem C11_relative_under_source_dir_false : ¬ C11_relative_under_source_dir_stmt := by
-  intro h
-  have hw : resolveKey { sourceDir := some [47, 115] } ⟨[], [], []⟩
-      [47, 120, 47, 46, 46, 47, 115, 47, 97, 46, 99]
-      = .ok (some ([47, 115, 47, 97, 46, 99], [47, 115, 47, 97, 46, 99])) := by decide
-  have := h { sourceDir := some [47, 115] } ⟨[], [], []⟩ _ [[115]] _ _ (by decide) (by decide) hw
-    (by decide)
-  revert this
-  decide
-
-/-- Guard: the absolute path *after canonicalisation* lies under the source dir (true when the file
-exists below it, and when the path lies below it component-wise). Then the record is
-(`S/rel`, `rel`): `rel` is relative, in normal form, and is exactly what stripping `S` from the
-reported absolute path leaves. -/
-theorem C11_relative_under_source_dir_partial (cfg : Cfg) (fs : FS) (key : Bytes)
-    (sn : List Bytes) (abs rel ac : Bytes) (hsn : ∀ n ∈ sn, RealName n)
+/-- With a clean absolute source dir `S` (what `main` passes: the canonicalised `--source-dir`),
+every reported file whose absolute path lies under `S` is reported relative to `S`: the record is
+(`S/rel`, `rel`) with `rel` relative and in normal form, and `rel` is exactly what stripping `S`
+from the reported absolute path leaves. Full strength on the model, for every file system, key,
+prefix and mapping. (Before fix 52345c0 this was false for `/x/../s/a.c` with `x` missing:
+finding C11-dotdot-not-relativised, now a corpus case. Symlinks are outside the model: the file
+system parameter has none, so "lies under" is about the path `canonicalize` returns.) -/
+theorem C11_relative_under_source_dir (cfg : Cfg) (fs : FS) (key : Bytes) (sn : List Bytes)
+    (abs rel : Bytes) (hsn : ∀ n ∈ sn, RealName n)
     (hS : cfg.sourceDir = some (render ⟨true, sn⟩))
     (h : resolveKey cfg fs key = .ok (some (abs, rel)))
-    (hac : absCanon fs cfg.sourceDir (keyPath cfg key) = some ac)
-    (hunder : startsWith ac (render ⟨true, sn⟩) = true) :
+    (hunder : startsWith abs (render ⟨true, sn⟩) = true) :
     ∃ names, (∀ n ∈ names, RealName n) ∧ rel = render ⟨false, names⟩ ∧
-      abs = render ⟨true, sn ++ names⟩ ∧ stripPrefix abs (render ⟨true, sn⟩) = some rel := by
-  obtain ⟨ac', h1, h2, h3⟩ := (getAbsPath_some_iff _ _ _ _ _).1 (resolveKey_some h)
-  rw [hac] at h1; cases h1
-  have hst : (stripPrefix ac (render ⟨true, sn⟩)).isSome = true := by
-    rw [stripPrefix_isSome_iff]; exact hunder
-  obtain ⟨t, ht⟩ := Option.isSome_iff_exists.1 hst
-  simp only [hS, fixupRelPath, ht] at h3
-  obtain ⟨names, hreal, e1, e2⟩ := under_clean_source hsn ht h2 h3
-  refine ⟨names, hreal, e1, e2, ?_⟩
-  rw [e1, e2, ← join_eq_render]
-  exact stripPrefix_render hsn hreal
+      abs = render ⟨true, sn ++ names⟩ ∧ stripPrefix abs (render ⟨true, sn⟩) = some rel :=
+  relative_under_source hsn hS h hunder
+
+/-- the former witness: source dir `/s`, nothing on disk, key `/x/../s/a.c` is now reported as
+(`/s/a.c`, `a.c`) -/
+example : resolveKey { sourceDir := some [47, 115] } ⟨[], [], []⟩
+    [47, 120, 47, 46, 46, 47, 115, 47, 97, 46, 99]
+    = .ok (some ([47, 115, 47, 97, 46, 99], [97, 46, 99])) := by decide
 
 /-! ### data -/
 
